@@ -3,31 +3,31 @@ import DarkluaModel.Shared.VisitorSound.Heap.HSoundStmt
 # Compatibility lemmas: the statement constructors
 -/
 namespace DarkluaModel.Sem.Heap
-variable {Q : QRel} {D : List String}
+variable {Q : QRel} {cx : Cx} {D : List String}
 
 theorem RRel.loopEnd {N : NumOps} {β β0 : CellRel} {env env' : Env N} {r : Option (List (Val N))} {σ σ' : State N}
-    (he : EnvOK β0 D env env') (hle : β0.le β) (h : SRel Q β σ σ') :
-    RRel Q β (ACtlS D)
+    (he : EnvOK cx β0 D env env') (hle : β0.le β) (h : SRel Q cx β σ σ') :
+    RRel Q cx β (ACtlS cx D)
       (match r with | some rv => (Res.ok (Ctl.ret rv) σ : Res N (Ctl N)) | none => .ok (.next env) σ)
       (match r with | some rv => .ok (.ret rv) σ' | none => .ok (.next env') σ') := by
   cases r
-  · exact RRel.ok (A := ACtlS D) (he.mono hle) h
-  · exact RRel.ok (A := ACtlS D) rfl h
+  · exact RRel.ok (A := ACtlS cx D) (he.mono hle) h
+  · exact RRel.ok (A := ACtlS cx D) rfl h
 
-theorem SoundS.assign {ts ts' vs vs'} (iht : SoundTs Q D ts ts') (ihv : SoundEs Q D vs vs') :
-    SoundS Q D (.assign ts vs) (.assign ts' vs') := by
+theorem SoundS.assign {ts ts' vs vs'} (iht : SoundTs Q cx D ts ts') (ihv : SoundEs Q cx D vs vs') :
+    SoundS Q cx D (.assign ts vs) (.assign ts' vs') := by
   intro N call ρ k env env' σ σ' β hc hs he
   simp only [execS]
   refine RRel.bind (iht N call ρ k env env' σ σ' β hc hs he) fun β1 h1 tgs tgs' htg _ _ h => ?_
   obtain ⟨rfl, hok⟩ := htg
   refine RRel.bindEq (ihv N call ρ k env env' _ _ _ hc h (he.mono h1)) fun β2 h2 _ _ _ h => ?_
   refine RRel.bindEq (storeTargets_param hc _ ((he.mono h1).mono h2).2 _ hok _ h) fun β3 h3 _ _ _ h => ?_
-  exact RRel.ok (A := ACtlS D) (((he.mono h1).mono h2).mono h3) h
+  exact RRel.ok (A := ACtlS cx D) (((he.mono h1).mono h2).mono h3) h
 
 theorem oldVal_rel {N : NumOps} {call : CallFn N} {ρ : ExtOracle N} {k : Nat} {env env' : Env N} {β : CellRel}
-    (hc : CallOK Q call) (he : EnvOK β D env env') (tg : Target N) {s s' : State N} (h : SRel Q β s s') :
+    (hc : CallOK Q cx call) (he : EnvOK cx β D env env') (tg : Target N) {s s' : State N} (h : SRel Q cx β s s') :
     TargetOK D tg →
-    RRel Q β AEq (match tg with
+    RRel Q cx β AEq (match tg with
         | .var n => (Res.ok (lookupVar env n s) s : Res N (Val N))
         | .slot t key => indexVal call ρ k t key s)
       (match tg with
@@ -38,8 +38,8 @@ theorem oldVal_rel {N : NumOps} {call : CallFn N} {ρ : ExtOracle N} {k : Nat} {
   · simp only [h.lookupVar he.2 hok]; exact RRel.okEq h
   · exact indexVal_param hc _ _ _ h
 
-theorem SoundS.cassign {op t t' v v'} (iht : SoundT Q D t t') (ihv : SoundE Q D v v') :
-    SoundS Q D (.cassign op t v) (.cassign op t' v') := by
+theorem SoundS.cassign {op t t' v v'} (iht : SoundT Q cx D t t') (ihv : SoundE Q cx D v v') :
+    SoundS Q cx D (.cassign op t v) (.cassign op t' v') := by
   intro N call ρ k env env' σ σ' β hc hs he
   simp only [execS]
   refine RRel.bind (iht N call ρ k env env' σ σ' β hc hs he) fun β1 h1 tg tg' htg s s' h => ?_
@@ -51,15 +51,15 @@ theorem SoundS.cassign {op t t' v v'} (iht : SoundT Q D t t') (ihv : SoundE Q D 
   refine RRel.bindEq (binopVal_param hc _ _ _ _ h) fun β4 h4 _ _ _ h => ?_
   have he4 := ((he1.mono h2).mono h3).mono h4
   refine RRel.bindEq (storeTarget_param hc _ he4.2 _ hok _ h) fun β5 h5 _ _ _ h => ?_
-  exact RRel.ok (A := ACtlS D) (he4.mono h5) h
+  exact RRel.ok (A := ACtlS cx D) (he4.mono h5) h
 
-theorem SoundS.callStmt {c c'} (ih : SoundE Q D c c') : SoundS Q D (.callStmt c) (.callStmt c') := by
+theorem SoundS.callStmt {c c'} (ih : SoundE Q cx D c c') : SoundS Q cx D (.callStmt c) (.callStmt c') := by
   intro N call ρ k env env' σ σ' β hc hs he
   simp only [execS]
   exact RRel.bindEq (ih N call ρ k env env' σ σ' β hc hs he) fun _ h1 _ _ _ h =>
-    RRel.ok (A := ACtlS D) (he.mono h1) h
+    RRel.ok (A := ACtlS cx D) (he.mono h1) h
 
-theorem SoundS.doBlock {b b' D'} (ih : SoundB Q D b b' D') : SoundS Q D (.doBlock b) (.doBlock b') := by
+theorem SoundS.doBlock {b b' D'} (ih : SoundB Q cx D b b' D') : SoundS Q cx D (.doBlock b) (.doBlock b') := by
   intro N call ρ k env env' σ σ' β hc hs he
   simp only [execS]
   exact RRel.bind (ih.2 N call ρ k env env' σ σ' β hc hs he) fun β1 h1 c c' hcc _ _ h =>
@@ -72,10 +72,10 @@ def addSelf (m : Option String) (f : FnBody) : FnBody :=
   | none, b => b
 
 theorem function_tail {N : NumOps} {call : CallFn N} {ρ : ExtOracle N} {k : Nat} {env env' : Env N} {β : CellRel}
-    (hc : CallOK Q call) (he : EnvOK β D env env') {σ σ' : State N} (hs : SRel Q β σ σ')
+    (hc : CallOK Q cx call) (he : EnvOK cx β D env env') {σ σ' : State N} (hs : SRel Q cx β σ σ')
     (name : List String) (m : Option String) (F F' : FnBody) (hF : Q D F F') :
     (∀ r, name.head? = some r → r ∉ D) →
-    RRel Q β (ACtlS D)
+    RRel Q cx β (ACtlS cx D)
       (match name, m with
         | [n], none => (Res.ok (Ctl.next env) (assignVar env n (.fn (σ.allocClosure ⟨F, env.locals, []⟩).1)
             (σ.allocClosure ⟨F, env.locals, []⟩).2) : Res N (Ctl N))
@@ -100,15 +100,15 @@ theorem function_tail {N : NumOps} {call : CallFn N} {ρ : ExtOracle N} {k : Nat
   have ha := hs.allocClosure (c := ⟨F, env.locals, []⟩) (c' := ⟨F', env'.locals, []⟩) ⟨rfl, D, hF, he.2⟩
   rw [ha.1]
   split
-  · exact RRel.ok (A := ACtlS D) he (ha.2.assignVar he.2 (hroot _ rfl) _)
+  · exact RRel.ok (A := ACtlS cx D) he (ha.2.assignVar he.2 (hroot _ rfl) _)
   · rw [ha.2.lookupVar he.2 (hroot _ rfl)]
     exact RRel.bindEq (walkFields_param hc _ _ _ ha.2) fun β1 h1 _ _ _ h =>
       RRel.bindEq (setIndexVal_param hc _ _ _ _ h) fun β2 h2 _ _ _ h =>
-        RRel.ok (A := ACtlS D) ((he.mono h1).mono h2) h
+        RRel.ok (A := ACtlS cx D) ((he.mono h1).mono h2) h
   · exact RRel.errS ha.2
 
 theorem SoundS.function {name m f f'} (hroot : ∀ r, name.head? = some r → r ∉ D)
-    (hf : Q D (addSelf m f) (addSelf m f')) : SoundS Q D (.function name m f) (.function name m f') := by
+    (hf : Q D (addSelf m f) (addSelf m f')) : SoundS Q cx D (.function name m f) (.function name m f') := by
   intro N call ρ k env env' σ σ' β hc hs he
   cases m with
   | none => simp only [execS]; exact function_tail hc he hs name none _ _ hf hroot
@@ -117,8 +117,8 @@ theorem SoundS.function {name m f f'} (hroot : ∀ r, name.head? = some r → r 
     simp only [execS]
     exact function_tail hc he hs name (some mm) _ _ hf hroot
 
-theorem SoundS.gfor {ns ns' vs vs' b b' D'} (hn : ns.map TName.name = ns'.map TName.name) (ihv : SoundEs Q D vs vs')
-    (ihb : SoundB Q D b b' D') : SoundS Q D (.gfor ns vs b) (.gfor ns' vs' b') := by
+theorem SoundS.gfor {ns ns' vs vs' b b' D'} (hn : ns.map TName.name = ns'.map TName.name) (ihv : SoundEs Q cx D vs vs')
+    (ihb : SoundB Q cx D b b' D') : SoundS Q cx D (.gfor ns vs b) (.gfor ns' vs' b') := by
   intro N call ρ k env env' σ σ' β hc hs he
   simp only [execS, hn]
   refine RRel.bindEq (ihv N call ρ k env env' σ σ' β hc hs he) fun β1 h1 vals _ _ h => ?_
@@ -129,16 +129,16 @@ theorem SoundS.gfor {ns ns' vs vs' b b' D'} (hn : ns.map TName.name = ns'.map TN
   · intro β2 h2 rs s s' h
     obtain ⟨β3, h3, hs3, he3⟩ := h.bindLocals (ns'.map TName.name) rs (he1.mono h2).2
     refine RRel.mono h3 ?_
-    have he4 : EnvOK β3 D { env with locals := (bindLocals (ns'.map TName.name) rs env.locals s).1 }
+    have he4 : EnvOK cx β3 D { env with locals := (bindLocals (ns'.map TName.name) rs env.locals s).1 }
         { env' with locals := (bindLocals (ns'.map TName.name) rs env'.locals s').1 } := ⟨he.1, he3⟩
     exact (ihb.2 N call ρ k _ _ _ _ _ hc hs3 he4).mapA fun _ _ _ _ ha => ha.shape
   · exact h
 
 theorem nfor_tail {N : NumOps} {call : CallFn N} {ρ : ExtOracle N} {k : Nat} {env env' : Env N} {β : CellRel}
-    (hc : CallOK Q call) (he : EnvOK β D env env')
-    {n n' : TName} {body body' : Block} {D' : List String} (hn : n.name = n'.name) (ihbody : SoundB Q D body body' D')
-    (a b c : List (Val N)) {σ σ' : State N} (h : SRel Q β σ σ') :
-    RRel Q β (ACtlS D)
+    (hc : CallOK Q cx call) (he : EnvOK cx β D env env')
+    {n n' : TName} {body body' : Block} {D' : List String} (hn : n.name = n'.name) (ihbody : SoundB Q cx D body body' D')
+    (a b c : List (Val N)) {σ σ' : State N} (h : SRel Q cx β σ σ') :
+    RRel Q cx β (ACtlS cx D)
       (match toNumber? (first a), toNumber? (first b), toNumber? (first c) with
         | some x, some y, some z =>
           (forLoop (fun i σ =>
@@ -166,7 +166,7 @@ theorem nfor_tail {N : NumOps} {call : CallFn N} {ρ : ExtOracle N} {k : Nat} {e
       have ha := h.allocBoth (.num i)
       refine RRel.mono (le_extBoth (σ := s) (σ' := s')) ?_
       rw [hn]
-      have he3 : EnvOK (extBoth β2 s s') D
+      have he3 : EnvOK cx (extBoth β2 s s') D
           { env with locals := (n'.name, (s.allocCell (.num i)).1) :: env.locals }
           { env' with locals := (n'.name, (s'.allocCell (.num i)).1) :: env'.locals } :=
         ⟨he.1, ((he.mono h2).2.mono le_extBoth).cons _ extBoth_new⟩
@@ -174,9 +174,9 @@ theorem nfor_tail {N : NumOps} {call : CallFn N} {ρ : ExtOracle N} {k : Nat} {e
     · exact h
   · exact RRel.errS h
 
-theorem SoundS.nforNone {n n' a a' b b' body body' D'} (hn : TName.name n = TName.name n') (iha : SoundE Q D a a')
-    (ihb : SoundE Q D b b') (ihbody : SoundB Q D body body' D') :
-    SoundS Q D (.nfor n a b none body) (.nfor n' a' b' none body') := by
+theorem SoundS.nforNone {n n' a a' b b' body body' D'} (hn : TName.name n = TName.name n') (iha : SoundE Q cx D a a')
+    (ihb : SoundE Q cx D b b') (ihbody : SoundB Q cx D body body' D') :
+    SoundS Q cx D (.nfor n a b none body) (.nfor n' a' b' none body') := by
   intro N call ρ k env env' σ σ' β hc hs he
   simp only [execS]
   exact RRel.bindEq (iha N call ρ k env env' σ σ' β hc hs he) fun β1 h1 _ _ _ h =>
@@ -185,8 +185,8 @@ theorem SoundS.nforNone {n n' a a' b b' body body' D'} (hn : TName.name n = TNam
         nfor_tail hc (((he.mono h1).mono h2).mono h3) hn ihbody _ _ _ h
 
 theorem SoundS.nforSome {n n' a a' b b' st st' body body' D'} (hn : TName.name n = TName.name n')
-    (iha : SoundE Q D a a') (ihb : SoundE Q D b b') (ihst : SoundE Q D st st') (ihbody : SoundB Q D body body' D') :
-    SoundS Q D (.nfor n a b (some st) body) (.nfor n' a' b' (some st') body') := by
+    (iha : SoundE Q cx D a a') (ihb : SoundE Q cx D b b') (ihst : SoundE Q cx D st st') (ihbody : SoundB Q cx D body body' D') :
+    SoundS Q cx D (.nfor n a b (some st) body) (.nfor n' a' b' (some st') body') := by
   intro N call ρ k env env' σ σ' β hc hs he
   simp only [execS]
   exact RRel.bindEq (iha N call ρ k env env' σ σ' β hc hs he) fun β1 h1 _ _ _ h =>
@@ -194,34 +194,34 @@ theorem SoundS.nforSome {n n' a a' b b' st st' body body' D'} (hn : TName.name n
       RRel.bindEq (ihst N call ρ k env env' _ _ _ hc h ((he.mono h1).mono h2)) fun β3 h3 _ _ _ h =>
         nfor_tail hc (((he.mono h1).mono h2).mono h3) hn ihbody _ _ _ h
 
-theorem SoundS.ifsNone {brs brs'} (ih : SoundBranches Q D brs brs') : SoundS Q D (.ifs brs none) (.ifs brs' none) := by
+theorem SoundS.ifsNone {brs brs'} (ih : SoundBranches Q cx D brs brs') : SoundS Q cx D (.ifs brs none) (.ifs brs' none) := by
   intro N call ρ k env env' σ σ' β hc hs he
   simp only [execS]
   refine RRel.bind (ih N call ρ k env env' σ σ' β hc hs he) fun β1 h1 r r' hr _ _ h => ?_
   cases r <;> cases r' <;> simp only [AOCtlS] at hr
-  · exact RRel.ok (A := ACtlS D) (he.mono h1) h
-  · exact RRel.ok (A := ACtlS D) hr h
+  · exact RRel.ok (A := ACtlS cx D) (he.mono h1) h
+  · exact RRel.ok (A := ACtlS cx D) hr h
 
-theorem SoundS.ifsSome {brs brs' b b' D'} (ih : SoundBranches Q D brs brs') (ihb : SoundB Q D b b' D') :
-    SoundS Q D (.ifs brs (some b)) (.ifs brs' (some b')) := by
+theorem SoundS.ifsSome {brs brs' b b' D'} (ih : SoundBranches Q cx D brs brs') (ihb : SoundB Q cx D b b' D') :
+    SoundS Q cx D (.ifs brs (some b)) (.ifs brs' (some b')) := by
   intro N call ρ k env env' σ σ' β hc hs he
   simp only [execS]
   refine RRel.bind (ih N call ρ k env env' σ σ' β hc hs he) fun β1 h1 r r' hr _ _ h => ?_
   cases r <;> cases r' <;> simp only [AOCtlS] at hr
   · exact RRel.bind (ihb.2 N call ρ k env env' _ _ _ hc h (he.mono h1)) fun β2 h2 c c' hcc _ _ h =>
       RRel.blockEnd (he.mono h1) h2 h hcc
-  · exact RRel.ok (A := ACtlS D) hr h
+  · exact RRel.ok (A := ACtlS cx D) hr h
 
 theorem SoundS.localAssign {kind kind' ns ns' vs vs'} (hn : ns.map TName.name = ns'.map TName.name)
-    (ihv : SoundEs Q D vs vs') : SoundS Q D (.localAssign kind ns vs) (.localAssign kind' ns' vs') := by
+    (ihv : SoundEs Q cx D vs vs') : SoundS Q cx D (.localAssign kind ns vs) (.localAssign kind' ns' vs') := by
   intro N call ρ k env env' σ σ' β hc hs he
   simp only [execS, hn]
   refine RRel.bindEq (ihv N call ρ k env env' σ σ' β hc hs he) fun β1 h1 vals s s' h => ?_
   obtain ⟨β2, h2, hs2, he2⟩ := h.bindLocals (ns'.map TName.name) vals (he.mono h1).2
-  exact RRel.mono h2 (RRel.ok (A := ACtlS D) ⟨he.1, he2⟩ hs2)
+  exact RRel.mono h2 (RRel.ok (A := ACtlS cx D) ⟨he.1, he2⟩ hs2)
 
 theorem SoundS.localFn {kind kind' name f f'} (hf : Q D f f') :
-    SoundS Q D (.localFn kind name f) (.localFn kind' name f') := by
+    SoundS Q cx D (.localFn kind name f) (.localFn kind' name f') := by
   intro N call ρ k env env' σ σ' β hc hs he
   simp only [execS]
   have h1 := hs.allocBoth .nil
@@ -230,16 +230,16 @@ theorem SoundS.localFn {kind kind' name f f'} (hf : Q D f f') :
   have h2 := h1.allocClosure (c := ⟨f, (name, (σ.allocCell .nil).1) :: env.locals, []⟩)
     (c' := ⟨f', (name, (σ'.allocCell .nil).1) :: env'.locals, []⟩) ⟨rfl, D, hf, he1⟩
   rw [h2.1]
-  refine RRel.mono le_extBoth (RRel.ok (A := ACtlS D) ⟨he.1, he1⟩ ?_)
+  refine RRel.mono le_extBoth (RRel.ok (A := ACtlS cx D) ⟨he.1, he1⟩ ?_)
   exact h2.2.setCell extBoth_new _
 
 /-- a `repeat` iteration from its body (as an open block) and its condition -/
-theorem SoundRep.mk {b b' c c' D'} (ihb : SoundB Q D b b' D') (ihc : SoundE Q D' c c') : SoundRep Q D b c b' c' := by
+theorem SoundRep.mk {b b' c c' D'} (ihb : SoundB Q cx D b b' D') (ihc : SoundE Q cx D' c c') : SoundRep Q cx D b c b' c' := by
   intro N call ρ k env env' σ σ' β hc hs he
   simp only [repeatStep_eq_execB]
   refine RRel.bind (ihb.2 N call ρ k env env' σ σ' β hc hs he) fun β1 h1 ctl ctl' hcc _ _ h => ?_
-  have fin : ∀ (e e' : Env N), EnvOK β1 D' e e' → ∀ s s', SRel Q β1 s s' →
-      RRel Q β1 (AOCtlS D)
+  have fin : ∀ (e e' : Env N), EnvOK cx β1 D' e e' → ∀ s s', SRel Q cx β1 s s' →
+      RRel Q cx β1 (AOCtlS cx D)
         ((evalE call ρ k e c s).bind fun cv σ3 =>
           if (first cv).truthy then (Res.ok (some Ctl.brk) σ3 : Res N (Option (Ctl N)))
           else .ok (some (.next env)) σ3)
@@ -248,20 +248,20 @@ theorem SoundRep.mk {b b' c c' D'} (ihb : SoundB Q D b b' D') (ihc : SoundE Q D'
     intro e e' hee s s' hss
     refine RRel.bindEq (ihc N call ρ k e e' s s' β1 hc hss hee) fun β2 h2 _ _ _ h => ?_
     split
-    · exact RRel.ok (A := AOCtlS D) (show AOCtlS D β2 (some .brk) (some .brk) from trivial) h
-    · exact RRel.ok (A := AOCtlS D) (show AOCtlS D β2 (some (.next env)) (some (.next env')) from
+    · exact RRel.ok (A := AOCtlS cx D) (show AOCtlS cx D β2 (some .brk) (some .brk) from trivial) h
+    · exact RRel.ok (A := AOCtlS cx D) (show AOCtlS cx D β2 (some (.next env)) (some (.next env')) from
         (he.mono h1).mono h2) h
   cases ctl <;> cases ctl' <;> simp only [ACtl] at hcc
   · exact fin _ _ hcc _ _ h
-  · exact RRel.ok (A := AOCtlS D) (show AOCtlS D β1 (some .brk) (some .brk) from trivial) h
+  · exact RRel.ok (A := AOCtlS cx D) (show AOCtlS cx D β1 (some .brk) (some .brk) from trivial) h
   · exact fin _ _ hcc _ _ h
-  · exact RRel.ok (A := AOCtlS D) (show AOCtlS D β1 (some (.ret _)) (some (.ret _)) from hcc) h
+  · exact RRel.ok (A := AOCtlS cx D) (show AOCtlS cx D β1 (some (.ret _)) (some (.ret _)) from hcc) h
 
-theorem AOCtlS.shape {N : NumOps} {β : CellRel} {c c' : Option (Ctl N)} (h : AOCtlS D β c c') : OCtlShape c c' := by
+theorem AOCtlS.shape {N : NumOps} {β : CellRel} {c c' : Option (Ctl N)} (h : AOCtlS cx D β c c') : OCtlShape c c' := by
   cases c <;> cases c' <;> simp only [AOCtlS, OCtlShape] at h ⊢
   exact h.shape
 
-theorem SoundS.repeat_ {b b' c c'} (ih : SoundRep Q D b c b' c') : SoundS Q D (.repeat_ b c) (.repeat_ b' c') := by
+theorem SoundS.repeat_ {b b' c c'} (ih : SoundRep Q cx D b c b' c') : SoundS Q cx D (.repeat_ b c) (.repeat_ b' c') := by
   intro N call ρ k env env' σ σ' β hc hs he
   simp only [execS]
   refine RRel.bindEq ?_ fun β2 h2 r _ _ h => RRel.loopEnd he h2 h
@@ -270,8 +270,8 @@ theorem SoundS.repeat_ {b b' c c'} (ih : SoundRep Q D b c b' c') : SoundS Q D (.
     exact (ih N call ρ k env env' s s' β2 hc h (he.mono h2)).mapA fun _ _ _ _ ha => ha.shape
   · exact hs
 
-theorem SoundS.while_ {b b' c c' D'} (ihc : SoundE Q D c c') (ihb : SoundB Q D b b' D') :
-    SoundS Q D (.while_ c b) (.while_ c' b') := by
+theorem SoundS.while_ {b b' c c' D'} (ihc : SoundE Q cx D c c') (ihb : SoundB Q cx D b b' D') :
+    SoundS Q cx D (.while_ c b) (.while_ c' b') := by
   intro N call ρ k env env' σ σ' β hc hs he
   simp only [execS]
   refine RRel.bindEq ?_ fun β2 h2 r _ _ h => RRel.loopEnd he h2 h
@@ -284,10 +284,10 @@ theorem SoundS.while_ {b b' c c' D'} (ihc : SoundE Q D c c') (ihb : SoundB Q D b
     · exact RRel.ok (A := fun _ => OCtlShape) (show OCtlShape none none from trivial) h
   · exact hs
 
-theorem SoundS.typeDecl {ex ex' name name' ty ty'} : SoundS Q D (.typeDecl ex name ty) (.typeDecl ex' name' ty') := by
-  intro N call ρ k env env' σ σ' β hc hs he; simp only [execS]; exact RRel.ok (A := ACtlS D) he hs
+theorem SoundS.typeDecl {ex ex' name name' ty ty'} : SoundS Q cx D (.typeDecl ex name ty) (.typeDecl ex' name' ty') := by
+  intro N call ρ k env env' σ σ' β hc hs he; simp only [execS]; exact RRel.ok (A := ACtlS cx D) he hs
 
-theorem SoundS.typeFn {ex ex' name name' f f'} : SoundS Q D (.typeFn ex name f) (.typeFn ex' name' f') := by
-  intro N call ρ k env env' σ σ' β hc hs he; simp only [execS]; exact RRel.ok (A := ACtlS D) he hs
+theorem SoundS.typeFn {ex ex' name name' f f'} : SoundS Q cx D (.typeFn ex name f) (.typeFn ex' name' f') := by
+  intro N call ρ k env env' σ σ' β hc hs he; simp only [execS]; exact RRel.ok (A := ACtlS cx D) he hs
 
 end DarkluaModel.Sem.Heap
